@@ -55,6 +55,7 @@ inductive Stmt
   | while (c : Expr) (body : Stmt)
   | loadObj (i k : Nat) (a : Expr)             -- `memcpy(&x_i, a, k)`, `x_i` a `k`-byte unsigned integer object
   | storeObj (a : Expr) (k i : Nat)            -- `memcpy(a, &x_i, k)`
+  | storeVal (a : Expr) (k : Nat) (e : Expr)   -- `*(uintK_t*)a = e`: a typed store of `k` bytes (out-parameters)
   | copy (d s n : Expr)                        -- `memcpy(d, s, n)` between byte buffers
   | fill (d v n : Expr)                        -- `memset(d, v, n)`
   | call (dst : Option Nat) (f : String) (args : List Expr)
